@@ -96,9 +96,27 @@ class EnumRNG:
         return np.array(out, dtype=float)
 
     def shuffle(self, x):
+        """Fisher-Yates, one enumerated choice per step.  Candidates holding equal values are merged
+        into one branch (weight = their number): the remaining prefix is shuffled uniformly whatever
+        its arrangement, so the output distribution is unchanged while runs of equal sentinels cost
+        multinomially many leaves instead of n!."""
         n = len(x)
         for i in range(n - 1, 0, -1):
-            j = self._choose([1.0 / (i + 1)] * (i + 1))
+            groups = []  # (representative index, count)
+            seen = {}
+            for j in range(i + 1):
+                try:
+                    k = ("h", x[j])
+                    hash(k)
+                except TypeError:
+                    k = ("id", id(x[j]))
+                if k in seen:
+                    groups[seen[k]][1] += 1
+                else:
+                    seen[k] = len(groups)
+                    groups.append([j, 1])
+            g = self._choose([c / (i + 1) for _, c in groups])
+            j = groups[g][0]
             x[i], x[j] = x[j], x[i]
 
     def multinomial(self, n, p):
